@@ -761,8 +761,20 @@ fn run_layered(cx: &mut Ctx, p: &Pools, rng: &mut Rng, len: usize) {
     let b_s = b_es.iter().map(entry_s).collect::<Vec<_>>().join(" ");
     let mut hist: Vec<String> = vec![];
     for _ in 0..len {
-        let op = gen_op(p, &keys, &u_ref, rng, false);
-        let expect_ok = u_ref.clone().apply(&op);
+        let mut op = gen_op(p, &keys, &u_ref, rng, false);
+        // now and then an empty phrase: `Layered` answers Ok and does not forward it
+        if rng.chance(1, 15) {
+            op = match op {
+                Op::Add(k, _, f, tm) => Op::Add(k, String::new(), f, tm),
+                Op::Update(k, _, f, tm) => Op::Update(k, String::new(), f, tm),
+                o => o,
+            };
+        }
+        let skipped = matches!(&op, Op::Add(_, t, ..) | Op::Update(_, t, ..) if t.is_empty());
+        if skipped {
+            cx.bump("layered_empty_phrase_ops");
+        }
+        let expect_ok = skipped || u_ref.clone().apply(&op);
         let apply_l = |l: &mut Layered| -> bool {
             match &op {
                 Op::Add(k, t, f, tm) => {
@@ -785,8 +797,10 @@ fn run_layered(cx: &mut Ctx, p: &Pools, rng: &mut Rng, len: usize) {
         if ok != expect_ok {
             cx.fail("new", format!("lay [{hs}] the last operation returned {} but the map says {}", ok, expect_ok));
         }
-        u_ref.apply(&op);
-        u_tr.apply(&op, ok);
+        if !skipped {
+            u_ref.apply(&op);
+            u_tr.apply(&op, ok);
+        }
         for k in &keys {
             for fz in [false, true] {
                 let full = lookup(&lay, k, usize::MAX, fz);
